@@ -75,15 +75,9 @@ impl SwiftField for Field23 {
                     });
                 }
 
-                // NOTICE function code requires days field
-                if function_code != "NOT" && function_code != "NOTICE" {
-                    return Err(ParseError::InvalidFormat {
-                        message: format!(
-                            "Days field only allowed for NOTICE function code, found {}",
-                            function_code
-                        ),
-                    });
-                }
+                // Which function may carry a number of days (NOTICE) is a network rule of the
+                // message type (MT935 T26, checked on the 11x part), not of the field format:
+                // ":23:USD30NOTICE" is the documented form and used to be rejected here
 
                 (Some(days_value), 5)
             } else {
